@@ -80,6 +80,7 @@ def units():
     u["dbl_off"] = dict(src=d + "/drv_double.cpp", flags=_lib_flags() + ["-isystem", EIGEN_INC, EIG],
                         mode="full", tier="quick")
     u["cases_off"] = dict(src=d + "/drv_cases.cpp", flags=_lib_flags(), mode="full", tier="quick")
+    u["iter_arch"] = dict(src=d + "/drv_iter_arch.cpp", flags=_lib_flags(), mode="full", tier="quick")
     u["iter_off"] = dict(src=d + "/drv_iter.cpp", flags=_lib_flags(), mode="full", tier="quick")
     u["lvalue"] = dict(src=d + "/drv_lvalue.cpp", flags=_lib_flags(), mode="full", tier="quick")
     u["cases_arch"] = dict(src=d + "/drv_cases_arch.cpp", flags=_lib_flags(), mode="full", tier="quick")
